@@ -19,12 +19,52 @@ var (
 	vEncN   int
 )
 
+// scalars are named by fresh integer symbols (one per distinct input, so that the verifier's recomputation of a
+// hash value meets the signer's symbol again) and reductions mod L are written with explicit quotients: the
+// composition then is linear in the symbols, their products and the quotients
+var (
+	vExpIn, vExpSym [12]vZ
+	vExpN           int
+)
+
+func vFreshScalarSym(prefix string) vZ {
+	e := vZfreshAuto(prefix)
+	vAssume(vZi(0).Le(e))
+	vAssume(e.Lt(vZc(vOrderL)))
+	return e
+}
+
+func vFreshQuot(prefix string) vZ {
+	k := vZfreshAuto(prefix)
+	vAssume(vZi(0).Le(k))
+	return k
+}
+
 func vc3_Expand(out *modm.Bignum256, in []byte) {
 	vAssert(len(in) == 32 || len(in) == 64, "Expand length")
-	vPut(out, vZle(in).Mod(vZc(vOrderL)))
+	v := vZle(in)
+	for k := 0; k < vExpN; k++ {
+		if vZsame(vExpIn[k], v) {
+			vPut(out, vExpSym[k])
+			return
+		}
+	}
+	e := vFreshScalarSym("sc")
+	vAssume(v.Eq(vFreshQuot("qe").Mul(vZc(vOrderL)).Add(e))) // e == v mod L
+	vExpIn[vExpN], vExpSym[vExpN] = v, e
+	vExpN++
+	vPut(out, e)
 }
-func vc3_Mul(r, x, y *modm.Bignum256) { vPut(r, vGetZ(x).Mul(vGetZ(y)).Mod(vZc(vOrderL))) }
-func vc3_Add(r, x, y *modm.Bignum256) { vPut(r, vGetZ(x).Add(vGetZ(y)).Mod(vZc(vOrderL))) }
+func vc3_Mul(r, x, y *modm.Bignum256) {
+	m := vFreshScalarSym("mul")
+	vAssume(vGetZ(x).Mul(vGetZ(y)).Eq(vFreshQuot("qm").Mul(vZc(vOrderL)).Add(m)))
+	vPut(r, m)
+}
+func vc3_Add(r, x, y *modm.Bignum256) {
+	m := vFreshScalarSym("add")
+	vAssume(vGetZ(x).Add(vGetZ(y)).Eq(vFreshQuot("qa").Mul(vZc(vOrderL)).Add(m)))
+	vPut(r, m)
+}
 func vc3_Contract(out []byte, in *modm.Bignum256) {
 	copy(out[:32], vZbytes(vGetZ(in), 32))
 }
